@@ -640,7 +640,12 @@ class PopenWorld(World):
             pass
         try:
             self.child.proc.wait()
-            self.child.proc.stdout.close()
+            # the reader thread holds the NUMBER of the pipe's descriptor: it must have seen the end of the stream and returned
+            # before the descriptor is closed, or its next os.read() hits whatever descriptor gets that number next (the pty of
+            # the next world in this process: it would steal that world's data).  If it has not (starved): leak the descriptor.
+            self.child._read_thread.join(timeout=30)
+            if not self.child._read_thread.is_alive():
+                self.child.proc.stdout.close()
         except Exception:
             pass
 
@@ -800,8 +805,9 @@ class GatedPopenWorld(World):
         except Exception:
             pass
         try:
-            self.child._read_thread.join(timeout=2)
-            self.child.proc.stdout.close()
+            self.child._read_thread.join(timeout=30)
+            if not self.child._read_thread.is_alive():        # (see PopenWorld.close)
+                self.child.proc.stdout.close()
         except Exception:
             pass
         popen_spawn.os, popen_spawn.Queue = self._saved
